@@ -4,16 +4,22 @@
    Restore, CleanAll, storeFileOnDisk, cleanUpFile;
    streams/config/flows_payload.utils.go: ParsePayload, SavePayloadContentToDisk).
 
-   The model describes the code AFTER patches/C08/fix-F-C08{a,b,c,f}.patch:
+   The model describes the code AFTER patches/C08/fix-F-C08{a,b,c,e,f}.patch:
      a  Restore diffs from the backup side, writes the backed-up contents and
         removes the files that did not exist at backup time; the metrics
         payload is saved to the user metrics file (the path the snapshot covers);
      b  /apply_flows takes a backup and rolls back like /configuration;
      c  the new stream is published only after Initialize() succeeded;
+     e  SaveFlow / SaveQuota / SavePathParams refuse a payload file name that
+        does not resolve to a file below their own directory
+        (filePathInDirectory): the save returns an error before anything of
+        that file is written and the update fails like after any other failed
+        save (Restore).  The switch [fixed : bool] of [save_all] / [update] /
+        [run] selects the code with (true) or without (false) that check; the
+        correspondence and the theorems about the gateway use [true], the
+        variant [false] is kept to keep the need for the check machine-checked
+        (Property.v: C08_disk_atomic_without_name_check_refuted);
      f  a request with the wrong HTTP method is answered 405 and NOT processed.
-   Left as it is in the code (finding F-C08e): a payload file name is joined
-   to its directory unsanitised, so its target may lie outside every place the
-   snapshot covers ([covered]).
 
    Disk     = association list path -> content, read with [lookup]
               (first match), compared extensionally.
@@ -26,7 +32,11 @@
    (fs.store, fs.remove, engine.init -- what the harness can inject).
    The order in which Go iterates over its maps (payload files, restore diff,
    the two single files in CleanAll) is an input: [hint] lists paths in the
-   order the implementation touched them; any list is allowed.
+   order the implementation touched them (one per hook-bearing step), [hs] is
+   the part of it that precedes the roll-back (the clean-up and the saves: a
+   refused name makes no hook call, so where it was met among the files of
+   its field is read off the files saved before the roll-back started); any
+   two lists are allowed.
 
    Case format (harness -> cases):
      ((handler 0=/configuration 1=/apply_flows, method is PUT, body is JSON),
@@ -34,7 +44,8 @@
       payload     : list (field, target path, content, base64 decodable),
       (contents failing validation, contents failing the metrics reload),
       fault       : option nat   (hook index),
-      hint        : list path    (paths of the observed hook calls, in order),
+      (hs, hint)  : list path * list path  (paths of the observed hook calls, in
+                    order: those made before Restore was first called, all),
       (status is 200, disk after, distinct engine views in order of appearance))
      path = (area code, interned relative name), content = interned bytes. *)
 From Coq Require Import List NArith Bool Arith.
@@ -268,12 +279,61 @@ Section Model.
     | _ => e_target e
     end.
 
-  Definition items_of (f : field) (pl : list entry) : disk :=
-    map (fun e => (target e, e_content e)) (filter (fun e => field_eqb (e_field e) f) pl).
+  (* filePathInDirectory (fix F-C08e): the joined, cleaned path is not a file
+     below the directory of its field.  [e_target] is that path, classified by
+     the place it lies in, so the name stays inside iff the area is the
+     field's own directory (the directory itself and everything else
+     classify as another area) *)
+  Definition dir_area (f : field) : option area :=
+    match f with
+    | FFlows => Some AFlows | FQuotas => Some AQuotas | FPathParams => Some APathParams
+    | FGateway | FMetrics => None
+    end.
+
+  Definition escapes (e : entry) : bool :=
+    match dir_area (e_field e) with
+    | Some a => negb (area_eqb (fst (e_target e)) a)
+    | None => false
+    end.
+
+  Definition names_escape (pl : list entry) : bool := existsb escapes pl.
+
+  (* a file to save: where, what, and whether its name leaves its directory *)
+  Definition item := (path * B * bool)%type.
+  Definition ikey (x : item) : path := fst (fst x).
+
+  (* the save of [x] is refused *)
+  Definition refused (fixed : bool) (x : item) : bool := fixed && snd x.
+
+  Definition items_of (f : field) (pl : list entry) : list item :=
+    map (fun e => (target e, e_content e, escapes e)) (filter (fun e => field_eqb (e_field e) f) pl).
+
+  Definition hinted (hint : list path) (x : item) : bool := existsb (path_eqb (ikey x)) hint.
+
+  (* the order in which the files of one field are met: those that made hook
+     calls in the order of these calls, then the refused ones (the first of
+     them ends the save), then the files that were never reached.  Without
+     refusals this is [arrange ikey hint items]. *)
+  Definition order_field (fixed : bool) (hint : list path) (items : list item) : list item :=
+    arrange ikey hint (filter (fun x => negb (refused fixed x) && hinted hint x) items)
+    ++ filter (refused fixed) items
+    ++ filter (fun x => negb (refused fixed x) && negb (hinted hint x)) items.
 
   (* SavePayloadContentToDisk: field by field, files of a field in map order *)
-  Definition plan (hint : list path) (pl : list entry) : disk :=
-    flat_map (fun f => arrange fst hint (items_of f pl)) fields.
+  Definition plan (fixed : bool) (hint : list path) (pl : list entry) : list item :=
+    flat_map (fun f => order_field fixed hint (items_of f pl)) fields.
+
+  (* a refused name: SaveFlow/SaveQuota/SavePathParams return the error of
+     filePathInDirectory; storeFileOnDisk is not called (no hook call, no
+     primitive step, nothing written); the loops return at the first error *)
+  Fixpoint save_all (fixed : bool) (l : list item) (s : st) : bool * st :=
+    match l with
+    | [] => (true, s)
+    | x :: r =>
+        if refused fixed x then (false, s) else
+        let '(ok, s1) := store (ikey x) (snd (fst x)) s in
+        if ok then save_all fixed r s1 else (false, s1)
+    end.
 
   Record request := {
     r_handler : handler;
@@ -289,7 +349,7 @@ Section Model.
       (if ok1 && ok2 then Failed else RollbackFailed, s2)
     else (if ok1 then Failed else RollbackFailed, s1).
 
-  Definition update (hint : list path) (rq : request) (s : st) : result * st :=
+  Definition update (fixed : bool) (hs hint : list path) (rq : request) (s : st) : result * st :=
     if negb (r_method_ok rq) then (Failed, s) else          (* 405 (fix F-C08f: and return) *)
     if negb (r_body_ok rq) then (Failed, s) else            (* 400 *)
     let '(f0, s0) := prim false s in                        (* Backup: reads *)
@@ -297,11 +357,11 @@ Section Model.
     let bk := snapshot (dsk s0) in
     if negb (forallb e_decodable (r_payload rq)) then (Failed, s0) else   (* ParsePayload *)
     let '(okc, s1) := match r_handler rq with
-                      | HApplyFlows => clean_all hint s0
+                      | HApplyFlows => clean_all hs s0
                       | HConfiguration => (true, s0)
                       end in
     if okc then
-      let '(oks, s2) := store_all (plan (skipn (hk s1) hint) (r_payload rq)) s1 in
+      let '(oks, s2) := save_all fixed (plan fixed (skipn (hk s1) hs) (r_payload rq)) s1 in
       if oks then
         let '(okr, s3) := reload s2 in
         if okr then (Ok, s3) else rollback hint bk true s3
@@ -312,8 +372,8 @@ Section Model.
   Definition init_state (d : disk) (f : fault) : st :=
     {| dsk := d; eng := EBuilt d; flt := f; seen := []; hk := 0 |}.
 
-  Definition run (hint : list path) (rq : request) (d : disk) (f : fault) : result * st :=
-    update hint rq (init_state d f).
+  Definition run (fixed : bool) (hs hint : list path) (rq : request) (d : disk) (f : fault) : result * st :=
+    update fixed hs hint rq (init_state d f).
 
   (* every engine a transaction can have met, the final one included *)
   Definition arrivals (s : st) : list engine := eng s :: seen s.
@@ -326,8 +386,8 @@ Section Model.
     | HApplyFlows => filter (fun e => negb (covered (fst e))) d
     end.
 
-  Definition new_disk (hint : list path) (rq : request) (d : disk) : disk :=
-    apply_list (plan hint (r_payload rq)) (base (r_handler rq) d).
+  Definition new_disk (fixed : bool) (hint : list path) (rq : request) (d : disk) : disk :=
+    apply_list (map fst (plan fixed hint (r_payload rq))) (base (r_handler rq) d).
 
   Definition targets_covered (pl : list entry) : bool :=
     forallb (fun e => covered (target e)) pl.
@@ -357,6 +417,8 @@ Arguments r_body_ok {B}.
 Arguments r_payload {B}.
 Arguments arrivals {B}.
 Arguments targets_covered {B}.
+Arguments escapes {B}.
+Arguments names_escape {B}.
 Arguments base {B}.
 
 (* ---------------------------------------------------------------- correspondence *)
@@ -381,7 +443,7 @@ Definition case := (
   list (N * cpath * N * bool) *
   (list N * list N) *
   option nat *
-  list cpath *
+  (list cpath * list cpath) *
   (bool * list (cpath * N) * list (list (N * N))))%type.
 
 Definition memN (x : N) (l : list N) : bool := existsb (N.eqb x) l.
@@ -448,7 +510,8 @@ Definition result_code (r : result) : N :=
   match r with Ok => 0 | Failed => 1 | RollbackFailed => 2 end%N.
 
 Definition run_case (k : case) : option (N * disk N * list (list (N * N))) :=
-  let '(hd, before, payload, bads, fault, hint, obs) := k in
+  let '(hd, before, payload, bads, fault, hints, obs) := k in
+  let '(hs, hint) := hints in
   let '(h, method_ok, body_ok) := hd in
   let '(bad, badm) := bads in
   let '(obs_ok, obs_after, obs_views) := obs in
@@ -459,7 +522,7 @@ Definition run_case (k : case) : option (N * disk N * list (list (N * N))) :=
                                              e_content := c; e_decodable := dec |}) payload |} in
   let f := match fault with None => NoFault | Some n => AtHook n end in
   let '(r, s) := run N N (fun c => c) N.eqb 0%N 0%N (c_valid bad) (c_metrics_ok badm)
-                     (map path_of hint) rq (c_disk before) f in
+                     true (map path_of hs) (map path_of hint) rq (c_disk before) f in
   let views := compress (map view_of (rev (arrivals s))) in
   if Bool.eqb obs_ok (match r with Ok => true | _ => false end)
      && disk_eqb (c_disk obs_after) (dsk s)
